@@ -4,8 +4,8 @@ package vrt
 
 import (
 	"fmt"
-	"syscall"
 	"runtime"
+	"syscall"
 	"unsafe"
 )
 
@@ -22,8 +22,12 @@ func RaceWrite(p unsafe.Pointer)        { runtime.RaceWrite(p) }
 func RaceErrors() int                   { return runtime.RaceErrors() }
 
 // The teardown of an execution unwinds parked threads through code whose locks are no longer
-// honoured; reports printed inside such a window are not attributed to the program.
+// honoured; reports printed inside such a window are not attributed to the program. The markers are
+// written to file descriptor 2 itself: that is where the runtime prints its reports.
 func raceWindowBegin() {
-	fmt.Fprintf(os.Stderr, "\n@@VRT-TEARDOWN-BEGIN races=%d\n", runtime.RaceErrors())
+	syscall.Write(2, []byte(fmt.Sprintf("\n@@VRT-TEARDOWN-BEGIN races=%d\n", runtime.RaceErrors())))
 }
-func raceWindowEnd() { fmt.Fprintf(os.Stderr, "\n@@VRT-TEARDOWN-END races=%d\n", runtime.RaceErrors()) }
+
+func raceWindowEnd() {
+	syscall.Write(2, []byte(fmt.Sprintf("\n@@VRT-TEARDOWN-END races=%d\n", runtime.RaceErrors())))
+}
